@@ -73,7 +73,9 @@ def composed_findings(prog, out, backends=None):
             composed = rr.env[last]
             assert isinstance(composed, Pipeable)
             fb = renv[h0] >> composed >> pdt.export(pdt.Polars())
-        except Exception as e:  # noqa: BLE001
+        except (KeyboardInterrupt, SystemExit):
+            raise
+        except BaseException as e:  # noqa: BLE001
             yield Finding("equiv:" + be, be, last, f"precomposed_chain: applying the composed pipeable raised {type(e).__name__}: {str(e)[:200]}", verb="export", exc=type(e).__name__)
             continue
         mode = "pol" if be == "pol" else "sql"
